@@ -13,8 +13,10 @@ PD makes the applied index and the leader's `pending_conf_index` part of the sta
 conditions by what single library calls of raft-rs enforce:
 
 * `apply i k` — the application reports progress (`advance_apply_to`): `applied ≤ k ≤ commit`;
-  `restart i a` — the applied index the node is restarted with is not beyond the durable commit index
-  (`Raft::new` checks `applied ≤ committed`);
+  `restart i a` — the applied index the node is restarted with (`Config.applied`) is not beyond the
+  durable commit index: a contract on the **application** (`Raft::new` applies it unchecked,
+  `applied_to_unchecked`; `RaftProps/PDGuards.lean` `PD_restart_gap`), kept by the simulator's
+  application (its applied index becomes durable only up to the durable commit index, DESIGN A4);
 * `campaign i` — `Raft::hup`: a node does not campaign while a membership-change entry in
   `(applied, committed]` is unapplied;
 * `leaderAppend i e` with a membership-change entry — `step_leader` / `commit_apply` (auto-leave): only
